@@ -119,11 +119,15 @@ where
 
     fn callsite_enabled(&self, meta: &'static Metadata<'static>) -> Interest {
         let a = self.a.callsite_enabled(meta);
+        // Ask `b` even when `a` alone decides the result: a filter may set up
+        // per-callsite state when it is offered a callsite (`EnvFilter` does
+        // so for its span directives), and it is still shown this callsite's
+        // spans and events afterwards (`on_new_span`, or `enabled` when the
+        // combined filter is negated).
+        let b = self.b.callsite_enabled(meta);
         if a.is_never() {
             return a;
         }
-
-        let b = self.b.callsite_enabled(meta);
 
         if !b.is_always() {
             return b;
